@@ -84,6 +84,62 @@ def Implies(a, b):
   return z3.Implies(zbool(a), zbool(b))
 
 
+_CMP = {z3.Z3_OP_EQ: lambda a, b: a == b, z3.Z3_OP_LE: lambda a, b: a <= b, z3.Z3_OP_LT: lambda a, b: a < b,
+        z3.Z3_OP_GE: lambda a, b: a >= b, z3.Z3_OP_GT: lambda a, b: a > b}
+
+
+def _as_int(t):
+  """Int term equal to the Real term t when t is to_real(int), an integral numeral, or a sum/difference of such; else None"""
+  if z3.is_app(t) and t.decl().kind() == z3.Z3_OP_TO_REAL:
+    return t.arg(0)
+  if z3.is_rational_value(t) and t.denominator_as_long() == 1:
+    return z3.IntVal(t.numerator_as_long())
+  if z3.is_app(t) and t.decl().kind() in (z3.Z3_OP_ADD, z3.Z3_OP_SUB, z3.Z3_OP_UMINUS) and t.num_args() >= 1:
+    parts = [_as_int(t.arg(i)) for i in range(t.num_args())]
+    if all(p is not None for p in parts):
+      k = t.decl().kind()
+      if k == z3.Z3_OP_ADD:
+        return z3.Sum(parts)
+      if k == z3.Z3_OP_UMINUS:
+        return -parts[0]
+      r = parts[0]
+      for p in parts[1:]:
+        r = r - p
+      return r
+  if z3.is_app(t) and t.decl().kind() == z3.Z3_OP_MUL and t.num_args() == 2:
+    a, b = _as_int(t.arg(0)), _as_int(t.arg(1))
+    if a is not None and b is not None and (z3.is_int_value(a) or z3.is_int_value(b)):
+      return a * b
+  return None
+
+
+def intify(e):
+  """rewrite comparisons between integer-valued real terms into integer comparisons (z3 5.1 answers `unknown` on
+  Not(to_real(a) == to_real(b)) style goals that are immediate over Int)"""
+  if not z3.is_app(e) or not z3.is_bool(e):
+    return e
+  k = e.decl().kind()
+  if k in _CMP and e.num_args() == 2 and z3.is_real(e.arg(0)):
+    a, b = _as_int(e.arg(0)), _as_int(e.arg(1))
+    if a is not None and b is not None:
+      return _CMP[k](a, b)
+    return e
+  if k in (z3.Z3_OP_AND, z3.Z3_OP_OR, z3.Z3_OP_NOT, z3.Z3_OP_IMPLIES, z3.Z3_OP_ITE) or (k == z3.Z3_OP_EQ and z3.is_bool(e.arg(0))):
+    args = [intify(e.arg(i)) for i in range(e.num_args())]
+    if k == z3.Z3_OP_AND:
+      return z3.And(*args)
+    if k == z3.Z3_OP_OR:
+      return z3.Or(*args)
+    if k == z3.Z3_OP_NOT:
+      return z3.Not(args[0])
+    if k == z3.Z3_OP_IMPLIES:
+      return z3.Implies(args[0], args[1])
+    if k == z3.Z3_OP_ITE:
+      return z3.If(args[0], args[1], args[2])
+    return args[0] == args[1]
+  return e
+
+
 def model_value(model, term):
   """python value (Fraction/int/bool) of `term` in `model` (model completion on)"""
   v = model.eval(term, model_completion=True)
@@ -345,10 +401,26 @@ class SymNum:
   # -- conversions
 
   def __floor__(s):
-    return s if s.kind == 'i' else SymNum('i', z3.simplify(z3.ToInt(s.z)))
+    if s.kind == 'i':
+      return s
+    ex = cur()
+    if getattr(ex, "axiom_floor", False) and not z3.is_rational_value(z3.simplify(s.z)):
+      # definitional extension: a fresh integer f with f <= x < f+1 (unique, hence equisatisfiable); much easier for the
+      # solver than to_int when several floors/ceilings are compared
+      f = z3.Int("floor_%d" % ex.fresh())
+      ex.assume(z3.And(z3.ToReal(f) <= s.z, s.z < z3.ToReal(f) + 1))
+      return SymNum('i', f)
+    return SymNum('i', z3.simplify(z3.ToInt(s.z)))
 
   def __ceil__(s):
-    return s if s.kind == 'i' else SymNum('i', z3.simplify(-z3.ToInt(-s.z)))
+    if s.kind == 'i':
+      return s
+    ex = cur()
+    if getattr(ex, "axiom_floor", False) and not z3.is_rational_value(z3.simplify(s.z)):
+      c = z3.Int("ceil_%d" % ex.fresh())
+      ex.assume(z3.And(z3.ToReal(c) - 1 < s.z, s.z <= z3.ToReal(c)))
+      return SymNum('i', c)
+    return SymNum('i', z3.simplify(-z3.ToInt(-s.z)))
 
   def __trunc__(s):
     if s.kind == 'i':
@@ -632,7 +704,7 @@ class Explorer:
 
   def _reset_solver(self):
     self.solver = z3.Solver()
-    self.solver.set("timeout", self.query_timeout_ms)
+    self.solver.set("timeout", min(self.query_timeout_ms, 8000))   # incremental attempt; see _check for the fallback
     self.trace = []     # entries: [kind, cond, taken, other]
     self.level = 0      # number of trace entries whose constraint is in the solver
     self.pos = 0        # replay position
@@ -641,6 +713,21 @@ class Explorer:
     t0 = time.time()
     self.queries += 1
     r = self.solver.check(*extra)
+    if r == z3.unknown:
+      # the incremental (push/pop) core gave up: retry the same formula with a fresh non-incremental solver, which uses
+      # z3's tactic-based arithmetic and is often much stronger on mixed integer/real problems
+      fresh = z3.Solver()
+      fresh.set("timeout", self.query_timeout_ms)
+      fresh.add(*self.solver.assertions())
+      fresh.add(*extra)
+      r = fresh.check()
+      self.fallback_queries = getattr(self, "fallback_queries", 0) + 1
+      if r == z3.sat and not extra:
+        self._fallback_model = fresh.model()
+      if r == z3.sat:
+        self._last_model = fresh.model()
+    else:
+      self._last_model = None
     self.solver_s += time.time() - t0
     if r == z3.unknown:
       raise Inconclusive(f"solver unknown: {self.solver.reason_unknown()}")
@@ -652,7 +739,7 @@ class Explorer:
     self.level += 1
 
   def decide(self, cond) -> bool:
-    cond = z3.simplify(cond)
+    cond = intify(z3.simplify(cond))
     if z3.is_true(cond):
       return True
     if z3.is_false(cond):
@@ -681,7 +768,7 @@ class Explorer:
     return taken
 
   def assume(self, c):
-    c = z3.simplify(zbool(c))
+    c = intify(z3.simplify(zbool(c)))
     if z3.is_true(c):
       return
     i = self.pos
@@ -728,6 +815,11 @@ class Explorer:
       self.assume(z3.And(*cs))
     return SymNum('i', v)
 
+  def fresh(self) -> int:
+    """per-path counter for fresh definitional symbols (deterministic under re-execution)"""
+    self._fresh = getattr(self, "_fresh", 0) + 1
+    return self._fresh
+
   def choice(self, name, n) -> int:
     """symbolic selector in [0,n): returns a concrete int, forking on first use"""
     if n == 1:
@@ -772,6 +864,10 @@ class Explorer:
 
   # -- assertions
 
+  def _model(self):
+    m = getattr(self, "_last_model", None)
+    return m if m is not None else self.solver.model()
+
   def _model_dict(self, model):
     out = {}
     for d in model.decls():
@@ -793,7 +889,7 @@ class Explorer:
     if isinstance(cond, bool):
       c = z3.BoolVal(cond)
     else:
-      c = z3.simplify(zbool(cond))
+      c = intify(z3.simplify(zbool(cond)))
     self.proved += 1
     if z3.is_true(c):
       return True
@@ -810,11 +906,11 @@ class Explorer:
     n = self._sigs.get(sig, 0)
     self._sigs[sig] = n + 1
     if n == 0:
-      self.violations.append(Violation(aid, self._model_dict(self.solver.model()), detail, len(self.trace)))
+      self.violations.append(Violation(aid, self._model_dict(self._model()), detail, len(self.trace)))
 
   def prove_all(self, obligations):
     """obligations: [(cond, aid, detail)].  One query for the conjunction; individual queries only if it fails."""
-    cs = [z3.simplify(zbool(c)) if not isinstance(c, bool) else z3.BoolVal(c) for c, _, _ in obligations]
+    cs = [intify(z3.simplify(zbool(c))) if not isinstance(c, bool) else z3.BoolVal(c) for c, _, _ in obligations]
     conj = z3.simplify(z3.And(*cs)) if cs else z3.BoolVal(True)
     self.proved += 1
     if z3.is_true(conj) or self._check(z3.Not(conj)) == z3.unsat:
@@ -856,7 +952,7 @@ class Explorer:
 
   def current_model(self):
     self._check()
-    return self._model_dict(self.solver.model())
+    return self._model_dict(self._model())
 
   # -- driver
 
@@ -870,6 +966,7 @@ class Explorer:
       while True:
         self.pos = 0
         self.holes = {}
+        self._fresh = 0
         try:
           fn(self)
         except Infeasible:
